@@ -349,7 +349,10 @@ var stores = map[string]*store{}
 
 // storeFor builds (once per geometry and child: reedsolomon.New is expensive) the blob store under test.
 func storeFor(root string, c Case) (*store, error) {
-	key := fmt.Sprintf("%d-%d-%v", c.D, c.P, c.Repair)
+	// shape of the erasure configuration (chosen by the case's salt; the behaviour must not depend on it):
+	// 0 the blob table has its own entry; 1 only the default entry ""; 2 the default entry plus another table's
+	shape := c.Salt % 3
+	key := fmt.Sprintf("%d-%d-%v-%d", c.D, c.P, c.Repair, shape)
 	if st, ok := stores[key]; ok {
 		return st, nil
 	}
@@ -363,8 +366,15 @@ func storeFor(root string, c Case) (*store, error) {
 		}
 	}
 	fio := &faultIO{FileIO: fs.NewFileIO(), failW: map[int]bool{}, failDir: map[int]bool{}, drives: drives}
-	cfg := map[string]sop.ErasureCodingConfig{Table: {DataShardsCount: c.D, ParityShardsCount: c.P,
-		BaseFolderPathsAcrossDrives: drives, RepairCorruptedShards: c.Repair}}
+	entry := sop.ErasureCodingConfig{DataShardsCount: c.D, ParityShardsCount: c.P,
+		BaseFolderPathsAcrossDrives: drives, RepairCorruptedShards: c.Repair}
+	cfg := map[string]sop.ErasureCodingConfig{Table: entry}
+	switch shape {
+	case 1:
+		cfg = map[string]sop.ErasureCodingConfig{"": entry}
+	case 2:
+		cfg = map[string]sop.ErasureCodingConfig{"": entry, "zz_other_table": entry}
+	}
 	bs, err := fs.NewBlobStoreWithEC(nil, fio, cfg)
 	if err != nil {
 		return nil, err
